@@ -7,6 +7,7 @@ import (
 	"strings"
 
 	"github.com/jsightapi/jsight-schema-core/notations/jschema"
+	"github.com/jsightapi/jsight-schema-core/rules/enum"
 
 	"verif/harness/internal/core"
 	"verif/harness/internal/tlc"
@@ -50,7 +51,12 @@ func smExtraCases(c *core.Ctx) ([]smCase, *tlc.Result, error) {
 			r.Root = sb.String()
 			r.Fam = "scaled:" + parts[1]
 		}
-		cases = append(cases, smCase{Skel: r.Fam, Kind: "extra", Expect: r.Expect, Extra: map[string]string{"root": r.Root, "type": r.Typ}})
+		ex := map[string]string{"root": r.Root, "type": r.Typ}
+		if strings.HasPrefix(r.Typ, "rule:") {
+			// the supporting text is a named enum rule (registered as @t with AddRule), not a type
+			ex = map[string]string{"root": r.Root, "type": "", "rule": strings.TrimPrefix(r.Typ, "rule:")}
+		}
+		cases = append(cases, smCase{Skel: r.Fam, Kind: "extra", Expect: r.Expect, Extra: ex})
 	}})
 	res.Cleanup()
 	if err != nil {
@@ -72,6 +78,21 @@ func smExtraEval(c *core.Ctx, cs smCase) []core.Finding {
 				}
 				return nil
 			}
+		}
+		if r := cs.Extra["rule"]; r != "" {
+			if err := s.AddRule("@t", enum.New("@t", r)); err != nil {
+				if c != nil {
+					c.Inconclusive("extra-addrule-failed:" + cs.Skel)
+				}
+				return nil
+			}
+			show := fmt.Sprintf("%q  RULE @t: %q", cs.Extra["root"], r)
+			if err := s.Check(); cs.Expect == "accept" && err != nil {
+				return []core.Finding{{Class: "check:rejects-satisfying-example:" + cs.Skel, What: fmt.Sprintf("every example is in the list of the rule but Check() = %v: %s", firstLineOf(err), show)}}
+			} else if cs.Expect == "reject" && err == nil {
+				return []core.Finding{{Class: "check:accepts-violating-example:" + cs.Skel, What: "an example is not in the list of the rule but Check() = nil: " + show}}
+			}
+			return nil
 		}
 		err := s.Check()
 		code := errCode(err)
